@@ -34,7 +34,10 @@ EXPLANATION = (
     'regex and delimiter-stripping chain (stdlib re on the source pattern) back to exactly that text and that tag list; the '
     'raw-metadata merge returns text and tag unchanged for every string (no numeric coercion: symbolic value must be the '
     'input itself); the region is built with that text parameter / meta text and those tags; one extra instance probes a text '
-    'containing the closing delimiter. Not decided: decimal formatting within half a unit of the precision; texts containing '
+    'containing the closing delimiter; (R9) list-level assembly: the serialiser is partially evaluated on four lists of '
+    'region records (frame, region string, metadata) standing for the per-region serialiser, and every record\'s frame, region '
+    'string and effective metadata (global line overridden by the region\'s own, lexed by the reader\'s metadata lexer) must be '
+    'recovered from the text; (R4 also checks that every warnings.warn in the io packages is called as (message, category)). Not decided: decimal formatting within half a unit of the precision; texts containing '
     'quote characters or leading braces; fixed-point of parse∘serialise∘parse as a whole.')
 TRUSTED = ['str.format / f-string semantics', 'SkyCoord.to_string yields "lon lat"', 'Quantity.to_string(unit="deg")',
            're.split on whitespace/commas yields the written tokens in order']
@@ -432,6 +435,24 @@ def r4(ctx):
             ctx.bad(fi.qualname.split(':')[1], f'warn-without-skip:{txt[:40].strip()}',
                     f'the code warns "{txt.strip()[:70]}" but the branch falls through: the region is not skipped and the '
                     'following code fails (or emits it), aborting/altering the rest of the list', fi.loc(c))
+    # (b) a skip is announced by a *warning*: warnings.warn(message, category) — with the arguments the other way round the
+    # call raises TypeError and aborts the whole list instead of skipping one region
+    nwarn = 0
+    for fi in m.all_functions():
+        if not fi.path.startswith('regions/io/') or fi.path.endswith('.pyx'):
+            continue
+        for c in calls_in(fi.node):
+            if (call_name(c) or '').split('.')[-1] not in ('warn',) or not c.args:
+                continue
+            nwarn += 1
+            first = c.args[0]
+            is_cat = lambda e: isinstance(e, (ast.Name, ast.Attribute)) and norm(e).split('.')[-1].endswith('Warning')  # noqa: E731
+            second = c.args[1] if len(c.args) > 1 else next((k.value for k in c.keywords if k.arg == 'category'), None)
+            if is_cat(first) or (second is not None and not is_cat(second)):
+                ctx.bad(fi.qualname.split(':')[1], f'warn-arguments:{norm(first)[:30]}',
+                        f'`{norm(c)[:90]}`: warnings.warn takes (message, category); as written it raises TypeError where a '
+                        'region was to be skipped with a warning', fi.loc(c))
+    ctx.need(nwarn >= 10, 'warning calls in regions/io', f'only {nwarn} found')
     # (a) check-then-use contradictions: `K not in D` branch that stays, followed by D[K]
     for fi in m.all_functions():
         if not fi.path.startswith('regions/io/') or fi.path.endswith('.pyx'):
@@ -570,12 +591,21 @@ def _concrete_bool(c, ph):
     """truth of a condition over rendered strings (membership / equality tests only)."""
     if isinstance(c, Const):
         return bool(c.v)
+    if isinstance(c, BoolT) and c.op == 'truthy':
+        try:
+            return bool(render(c.args[0], ph))        # truthiness of a string
+        except AnalysisError:
+            return _concrete_bool(c.args[0], ph)
     if isinstance(c, BoolT):
         xs = [_concrete_bool(a, ph) for a in c.args]
         return {'and': all(xs), 'or': any(xs), 'not': not xs[0]}.get(c.op) if c.op != 'xor' else xs[0] != xs[1]
     if isinstance(c, Cmp) and c.op in ('in', 'notin', 'not in', '==', '!='):
         a, b = render(c.lhs, ph), render(c.rhs, ph)
         return {'in': a in b, 'notin': a not in b, 'not in': a not in b, '==': a == b, '!=': a != b}[c.op]
+    try:
+        return bool(render(c, ph))
+    except AnalysisError:
+        pass
     raise AnalysisError('C09.R8', 'metadata string', f'condition on the text not understood: {show(c, 160)}')
 
 
@@ -716,6 +746,105 @@ def r8(ctx):
                 "and '')", meta_fn.loc())
 
 
+ASSEMBLY_CASES = {
+    'one frame, shared and differing metadata': [
+        ('image', 'circle(1,2,3)', {'color': 'red', 'width': '2', 'tag': ['t1', 't2'], 'text': '{a b}'}),
+        ('image', 'circle(4,5,6)', {'color': 'blue', 'width': '2'}),
+        ('image', '-circle(7,8,9)', {'color': 'red', 'width': '2', 'include': '0'}),
+    ],
+    'differing frames': [
+        ('image', 'circle(1,2,3)', {'color': 'red'}),
+        ('fk5', 'circle(4,5,6)', {'color': 'red'}),
+        ('image', 'circle(7,8,9)', {'color': 'red', 'dash': '1'}),
+    ],
+    'identical metadata': [
+        ('galactic', 'point(1,2)', {'color': 'red', 'tag': ['x']}),
+        ('galactic', 'point(3,4)', {'color': 'red', 'tag': ['y']}),
+    ],
+    'first region has the fewest keys': [
+        ('fk5', 'circle(1,2,3)', {'color': 'red'}),
+        ('fk5', 'circle(4,5,6)', {'color': 'red', 'width': '2'}),
+        ('fk5', 'circle(7,8,9)', {'color': 'green', 'width': '2'}),
+    ],
+}
+
+
+def r9(ctx):
+    """list-level assembly: the serialiser, partially evaluated on region records (frame, region string, metadata) in place
+    of the per-region serialiser, must emit text from which every record's frame, region string and metadata are recovered
+    by the reader's rule (active frame line or "frame;" prefix; global metadata overridden by the region's own)."""
+    m = ctx.model
+    ser, wfi, meta_fn = ds9.writer_funcs(m)
+    lex = ds9.meta_lexer(m)
+
+    def conv(v):
+        if isinstance(v, dict):
+            return DictV([{k: conv(x) for k, x in v.items()}])
+        if isinstance(v, list):
+            return Tup(tuple(conv(x) for x in v), 'list')
+        return Const(v)
+
+    def lexmeta(txt):
+        got = Evaluator(m).call(lex, [Const(txt)], {})
+        ctx.need(isinstance(got, DictV) and not got.has_symbolic(), lex.qualname, f'metadata `{txt}` not lexed to a keyed dict')
+        out = {}
+        for k in got.keys():
+            v = got.get(k)
+            out[k] = [i.v for i in v.items] if isinstance(v, Tup) else (v.v if isinstance(v, Const) else show(v, 60))
+        return out
+
+    for cname, recs in ASSEMBLY_CASES.items():
+        it = iter([conv({'frame': f, 'region': r, 'meta': md}) for f, r, md in recs])
+        regs = Tup(tuple(Obj('CirclePixelRegion', {}, f'r{i}', m.cls('CirclePixelRegion')) for i in range(len(recs))), 'list')
+        ev = Evaluator(m, hooks={wfi.qualname: lambda e, a, k: next(it)})
+        out = ev.run(ser, [regs], {})
+        vals = [v for pc, v in out.returns]
+        ctx.need(len(vals) == 1, ser.qualname, f'{len(vals)} outcomes on concrete records')
+        text = render(vals[0], {})
+        lines = [ln for ln in text.split('\n') if ln.strip()]
+        probs = []
+        if not lines or not lines[0].startswith('# Region file format: DS9'):
+            probs.append(f'first line is `{lines[0] if lines else ""}`')
+        body = lines[1:]
+        gmeta = {}
+        frame = None
+        recovered = []
+        for ln in body:
+            low = ln.strip()
+            if low.startswith('global '):
+                gmeta = lexmeta(low[7:])
+                continue
+            if '(' not in low:
+                frame = low
+                continue
+            fr = frame
+            if ';' in low.split('(')[0]:
+                fr, low = [x.strip() for x in low.split(';', 1)]
+            reg, _, mt = low.partition(' # ')
+            eff = dict(gmeta)
+            eff.update(lexmeta(mt) if mt else {})
+            recovered.append((fr, reg.strip(), eff))
+        want = []
+        for f, r, md in recs:
+            w = {k: ([x for x in v] if isinstance(v, list) else (v[1:-1] if k == 'text' else v)) for k, v in md.items()}
+            want.append((f, r, w))
+        if len(recovered) != len(want):
+            probs.append(f'{len(recovered)} region lines for {len(want)} regions')
+        else:
+            for i, (g, w) in enumerate(zip(recovered, want)):
+                if g[0] != w[0]:
+                    probs.append(f'region {i + 1} is under frame {g[0]!r}, its own frame is {w[0]!r}')
+                if g[1] != w[1]:
+                    probs.append(f'region {i + 1} is written as `{g[1]}`, not `{w[1]}`')
+                if g[2] != w[2]:
+                    probs.append(f'region {i + 1} reads back with metadata {g[2]}, it was given {w[2]}')
+        if probs:
+            ctx.bad(f'{ser.qualname.split(":")[1]}: {cname}', 'assembly', '; '.join(probs[:2]) + f' — output: {text!r}'[:400],
+                    ser.loc())
+        else:
+            ctx.ok(f'{ser.qualname.split(":")[1]}: {cname}', f'{len(recs)} records recovered (frame, region text, effective metadata)')
+
+
 class _SubCtx:
     """Run a rule of another property, keeping only constructs that satisfy a filter."""
 
@@ -754,5 +883,6 @@ RULES = [
     RuleDef('R5', 'include sense survives (sign, {0,1})', r5, 2),
     RuleDef('R6', 'deterministic output', r6, 1),
     RuleDef('R7', 'serialisers do not mutate the regions', r7, 2),
+    RuleDef('R9', 'list-level assembly: global/own metadata and frame lines recover every record', r9, 4),
     RuleDef('R8', 'text and tags: written delimiters are the ones lexed; free text is never coerced; bound to the region', r8, 5),
 ]
